@@ -4,6 +4,8 @@ from .. import gen, hist
 
 class Runner(hist.HistoryRunner):
     execset_prop = "C14"
+    own_prop = "C14"
+    claims = ('mkpath', 'rmpath', 'mkpath-dir')
     once_prop = "C14"
 
     def check_cmd(self, kind, targets, cwd, res, ok, ex, calls, args, exits, pre, nested, ctx):
